@@ -169,6 +169,7 @@ func run(s *core.Shard) {
 	perms := s.Pick(3, 10)
 	const batchSize = 8
 	corpus := gen.Corpus()
+	runReuse(s, nInputs/batchSize+1)
 	for b := 0; b*batchSize < nInputs; b++ {
 		if !s.Mine(b) {
 			continue
@@ -497,7 +498,20 @@ func rerun(s *core.Shard, rc *replayCase) ([]discrepancy, error) {
 	return all, nil
 }
 
+type reuseWitness struct {
+	Kind string `json:"kind"`
+	Doc  string `json:"doc"`
+	Mode string `json:"mode"`
+}
+
 func replay(s *core.Shard, dir string) {
+	var rw reuseWitness
+	if err := core.ReadJSON(filepath.Join(dir, "case.json"), &rw); err == nil && rw.Kind == "reuse" {
+		if differs, detail, files, _ := reuseCase(s, rw.Doc, rw.Mode); differs {
+			s.Violation(map[string]string{"kind": "reused-inputs-differ", "mode": rw.Mode}, detail, files)
+		}
+		return
+	}
 	var rc replayCase
 	if err := core.ReadJSON(filepath.Join(dir, "case.json"), &rc); err != nil || rc.Case == nil {
 		s.Inconclusive(fmt.Sprintf("replay: cannot read case.json: %v", err))
@@ -514,6 +528,11 @@ func replay(s *core.Shard, dir string) {
 }
 
 func witness(s *core.Shard, f core.Finding) (bool, string) {
+	var rw reuseWitness
+	if err := json.Unmarshal(f.Witness, &rw); err == nil && rw.Kind == "reuse" {
+		differs, detail, _, _ := reuseCase(s, rw.Doc, rw.Mode)
+		return differs, detail
+	}
 	var rc replayCase
 	if err := json.Unmarshal(f.Witness, &rc); err != nil || rc.Case == nil {
 		return false, fmt.Sprintf("witness unreadable: %v", err)
